@@ -63,6 +63,9 @@ template <class M> int Run(const char *file, ModelType type) {
       lm::WordIndex vid = i < words.size() ? virt->BaseVocabulary().Index(StringPiece(words[i])) : virt->BaseVocabulary().EndSentence();
       if (i < words.size() && virt->BaseVocabulary().Index(words[i]) != id) mism << " Index(std::string)@" << i;
       if (i < words.size() && virt->BaseVocabulary().Index(words[i].c_str()) != typed.GetVocabulary().Index(words[i].c_str())) mism << " Index(char*)@" << i;
+      // the three overloads name the same word when it holds no NUL byte (the C-string overload is the Python module's)
+      if (i < words.size() && words[i].find('\0') == std::string::npos &&
+          (virt->BaseVocabulary().Index(words[i].c_str()) != id || typed.GetVocabulary().Index(words[i].c_str()) != id)) mism << " Index(char*)!=Index(StringPiece)@" << i;
       if (vid != id) mism << " Index@" << i;
       lm::FullScoreReturn r = typed.FullScore(st, id, out);
       lm::FullScoreReturn v = virt->BaseFullScore(&vs[0], vid, &vo[0]);
